@@ -69,6 +69,7 @@ func ruleLiveField(c *Ctx, r *Rep) {
 	// reads of fields in SSA: a FieldAddr whose address is loaded (or passed on), or a Field extract
 	read := map[*types.Var][]string{}
 	condUse := map[*types.Var][]*ssa.Function{} // used as a branch condition
+	aliasRead := map[*types.Var][]*types.Var{}  // field of a struct type -> same-position fields of types it is converted to
 	for _, fn := range c.Funcs {
 		for _, b := range fn.Blocks {
 			for _, ins := range b.Instrs {
@@ -106,6 +107,45 @@ func ruleLiveField(c *Ctx, r *Rep) {
 					}
 				}
 			}
+		}
+	}
+	// a value converted to another struct type with the same fields is read through that type's fields
+	for _, fn := range c.Funcs {
+		for _, b := range fn.Blocks {
+			for _, ins := range b.Instrs {
+				var from, to types.Type
+				switch x := ins.(type) {
+				case *ssa.ChangeType:
+					from, to = x.X.Type(), x.Type()
+				case *ssa.Convert:
+					from, to = x.X.Type(), x.Type()
+				default:
+					continue
+				}
+				for i := 0; i < 2; i++ {
+					if p, ok := from.Underlying().(*types.Pointer); ok {
+						from = p.Elem()
+					}
+					if p, ok := to.Underlying().(*types.Pointer); ok {
+						to = p.Elem()
+					}
+				}
+				sa, okA := from.Underlying().(*types.Struct)
+				sb, okB := to.Underlying().(*types.Struct)
+				if !okA || !okB || sa.NumFields() != sb.NumFields() || types.Identical(from, to) {
+					continue
+				}
+				for i := 0; i < sa.NumFields(); i++ {
+					fa, fb := sa.Field(i), sb.Field(i)
+					aliasRead[fa] = append(aliasRead[fa], fb)
+				}
+			}
+		}
+	}
+	for fa, fbs := range aliasRead {
+		for _, fb := range fbs {
+			read[fa] = append(read[fa], read[fb]...)
+			condUse[fa] = append(condUse[fa], condUse[fb]...)
 		}
 	}
 	// reflection: FieldByName("X") with constant names, per function; and functions iterating all fields
